@@ -933,6 +933,7 @@ class Pyramid(object):
     def _walk_parallel(self, callback, cli_progress, parallel):
         import multiprocessing as mp
         from queue import Empty
+        from .par_util import check_workers, finish_workers
 
         # When dispatching we keep track of finished tiles (reported in
         # `done_queue`) and notify workers when new tiles are ready to process
@@ -1033,6 +1034,7 @@ class Pyramid(object):
                 except (OSError, ValueError, Empty):
                     # OSError or ValueError => queue closed. This signal seems not to
                     # cross multiprocess lines, though.
+                    check_workers(workers, (ready_queue,))
                     continue
 
                 progress.update(1)
@@ -1058,12 +1060,7 @@ class Pyramid(object):
 
         # All done!
 
-        ready_queue.close()
-        ready_queue.join_thread()
-        done_event.set()
-
-        for w in workers:
-            w.join()
+        finish_workers(ready_queue, done_event, workers)
 
     def visit_leaves(
         self,
@@ -1158,6 +1155,7 @@ class Pyramid(object):
 
     def _visit_leaves_parallel(self, callback, total, cli_progress, parallel):
         import multiprocessing as mp
+        from .par_util import finish_workers, put_to_workers
 
         ready_queue = mp.Queue(maxsize=2 * parallel)
         done_event = mp.Event()
@@ -1182,19 +1180,14 @@ class Pyramid(object):
         with progress_bar(total=total, show=cli_progress) as progress:
             for pos, tile, is_leaf, _data in riter:
                 if is_leaf:
-                    ready_queue.put((pos, tile))
+                    put_to_workers(ready_queue, (pos, tile), workers)
                     progress.update(1)
 
                 riter.set_data(None)
 
         # All done!
 
-        ready_queue.close()
-        ready_queue.join_thread()
-        done_event.set()
-
-        for w in workers:
-            w.join()
+        finish_workers(ready_queue, done_event, workers)
 
 
 class PyramidReductionIterator(object):
